@@ -16,7 +16,8 @@ gvars == <<P, steps>>
 
 Boundary == {1, 254, 255, 256, 65534}
 Sizes == {1, 2, 4, 8}
-Bytes4 == { <<1, 0, 0, 0>>, <<255, 255, 255, 255>>, <<0, 0, 0, 128>>, <<254, 255, 0, 1>> }
+Bytes4 == { <<1, 0, 0, 0>>, <<255, 255, 255, 255>>, <<0, 0, 0, 128>>, <<254, 255, 0, 1>>,
+            <<2, 0, 0, 0>>, <<0, 0, 32, 64>>, <<0, 0, 0, 63>>, <<0, 0, 122, 68>> }   \* 2, 2.5f, 0.5f, 1000.0f
 Bytes8 == { <<1, 0, 0, 0, 0, 0, 0, 0>>, <<0, 0, 0, 128, 0, 0, 0, 0>>, <<239, 205, 171, 137, 103, 69, 35, 1>>,
             <<0, 255, 0, 255, 0, 255, 0, 255>>, <<154, 153, 153, 153, 153, 153, 185, 63>> }
 PTypes == {"int", "float", "int64", "double"}
@@ -50,7 +51,7 @@ D(k) == k - 1   S(k) == 3 + k   A(k) == 11 + k   C(k) == 15 + k   Pm(k) == 23 + 
 \* (first variable of the right size in a class the operand may use)
 Insn(op, fl, args) == [flags |-> fl, op |-> OpIdx(op), args |-> args]
 AddI ==
-  /\ Step /\ Len(P.insns) < 6
+  /\ Step /\ Len(P.insns) < 8
   /\ \/ (Len(P.d) >= 1 /\ Len(P.s) >= 1 /\ \E fl \in {0, 1, 2} :
            P' = [P EXCEPT !.insns = Append(@, Insn("copyw", fl, <<D(1), S(1)>>))])
      \/ (Len(P.d) >= 1 /\ Len(P.s) >= 2 /\ \E fl \in {0, 1, 2} :
@@ -59,6 +60,11 @@ AddI ==
            P' = [P EXCEPT !.insns = Append(@, Insn("shlw", 0, <<D(1), S(1), C(Len(P.c))>>))])
      \/ (Len(P.d) >= 2 /\ Len(P.s) >= 1 /\
            P' = [P EXCEPT !.insns = Append(@, Insn("splitlw", 0, <<D(1), D(2), S(1)>>))])
+     \/ (Len(P.d) >= 2 /\ Len(P.c) >= 1 /\ \E k \in 1..Len(P.c) :
+           \E op \in {"splitlw", "splitwb", "splitql"} :
+           P' = [P EXCEPT !.insns = Append(@, Insn(op, 0, <<D(1), D(2), C(k)>>))])
+     \/ (Len(P.d) >= 1 /\ Len(P.s) >= 1 /\ Len(P.c) >= 1 /\ \E k \in 1..Len(P.c), op \in {"addl", "mulf", "addw", "andb"} :
+           P' = [P EXCEPT !.insns = Append(@, Insn(op, 0, <<D(1), S(1), C(k)>>))])
      \/ (Len(P.a) >= 1 /\ Len(P.s) >= 1 /\
            P' = [P EXCEPT !.insns = Append(@, Insn("accw", 0, <<A(1), S(1)>>))])
      \/ (Len(P.t) >= 1 /\ Len(P.p) >= 1 /\
